@@ -1243,11 +1243,6 @@ Qed.
 (* ====== translator-derived tables (T11send/paths): reflective checkers ====== *)
 From Coq Require Import String.
 
-Definition group_accepts_ok (l : list (string * bool * bool)) : bool :=
-  forallb (fun r => snd (fst r) && snd r) l && Nat.eqb (List.length l) 2.
-
-Definition compress_site_ok (r : string * string * bool * bool * bool) : bool :=
-  let '(_, _, has_results, recycle_ok, joins) := r in negb has_results && recycle_ok && joins.
 
 (* sound once and for all tables: if the checker says true, every listed call site keeps the pooled
    wrapper inside a function without results, recycles it only by a deferred call or after the Join, and
